@@ -36,6 +36,9 @@ def go_params(rng, maxn=3):
         k = rng.choice([1, 1, 1, 2])
         names = []
         for _ in range(k):
+            if rng.random() < 0.08:
+                names.append("_")         # the blank identifier is a parameter like any other (`_ string`, `_, _ int`)
+                continue
             n = rng.choice([v for v in NAMES_V if v not in used] or ["zz%d" % len(used)])
             used.add(n)
             names.append(n)
@@ -51,7 +54,7 @@ def go_body(rng, recv, params, imports):
     """flat body: call statements, defer, assignments, returns. returns (lines, calls) with calls = [(receiver text, method)] of call/defer statements"""
     lines, calls, stmts = [], [], []
     pkgs = [(a or p.split("/")[-1]) for p, a in imports]
-    vars_ = [n for ns, _ in params for n in ns] + ([recv] if recv else [])
+    vars_ = [n for ns, _ in params for n in ns if n != "_"] + ([recv] if recv else [])
     for _ in range(rng.choice([0, 1, 2, 3, 5])):
         r = rng.random()
         if r < 0.35 and pkgs:
